@@ -109,13 +109,21 @@ def plan(tier, seed):
     # affordable for every pair, also the long encoder calls
     sp = PAIRS + [("enc-blossoms", "enc-blossoms"), ("enc-blossoms", "enc-oddfused-a"), ("dec-compat", "dec-compat"),
                   ("enc-3blossoms", "enc-3blossoms")]
-    bs = 3 if thorough else 2
-    scopes.append({"name": "pairs/shared-points/bound%d" % bs, "pairs": sp, "granularity": "LINE restricted to shared-state lines",
-                   "preemptions": "<= %d" % bs})
+    scopes.append({"name": "pairs/shared-points/bound2", "pairs": sp, "granularity": "LINE restricted to shared-state lines",
+                   "preemptions": "<= 2"})
     for p in sp:
         for first in (0, 1):
             for c in range(4):
-                tasks.append(("pairs/shared-points/bound%d" % bs, ("s%d" % bs, p, first, c, 4, "shared")))
+                tasks.append(("pairs/shared-points/bound2", ("s2", p, first, c, 4, "shared")))
+    if thorough:
+        # bound 3 costs (events of A)^2 x (events of B) executions: every pair except those of the longest encoder calls
+        sp3t = [p for p in sp if not any(n.startswith(("enc-two-rings", "enc-oddfused")) for n in p)]
+        scopes.append({"name": "pairs/shared-points/bound3", "pairs": sp3t, "granularity": "LINE restricted to shared-state lines",
+                       "preemptions": "<= 3"})
+        for p in sp3t:
+            for first in (0, 1):
+                for c in range(16):
+                    tasks.append(("pairs/shared-points/bound3", ("s3", p, first, c, 16, "shared")))
     if not thorough:
         sp3 = [("enc-3blossoms", "enc-3blossoms"), ("dec-short-a", "dec-short-b"), ("dec-ring-a", "dec-ring-b"), ("dec-compat", "dec-legacy-noflag")]
         scopes.append({"name": "pairs/shared-points/bound3", "pairs": sp3, "granularity": "LINE restricted to shared-state lines",
